@@ -195,7 +195,8 @@ end AnyioModel.Iter
 
 /-! ### tee -/
 
-namespace AnyioModel.Iter.Tee
+namespace AnyioModel.Iter
+open AnyioModel.Iter.Tee
 variable {α : Type}
 
 /-- the invariant of `TeeProofs` holds in every reachable state: any number of consumers, any
@@ -332,4 +333,4 @@ example :
         fun s => (s.seen 0, s.seen 1, s.finished 0, s.finished 1, s.srcCalls)) =
     some ([5, 6], [5, 6], true, true, 3) := by decide
 
-end AnyioModel.Iter.Tee
+end AnyioModel.Iter
